@@ -136,10 +136,11 @@ func runCase(c Case) (ev.Info, error) {
 	}
 	defer env.Close()
 	var all []flat
-	for _, h := range c.Hooks {
+	for hi, h := range c.Hooks {
 		d := hcfg.D{}
 		for _, b := range h.Bindings {
-			a := hcfg.Adm{Name: b.Name, Group: b.Group, Rules: []hcfg.AdmRule{{Operations: []string{"CREATE"}, APIGroups: []string{""}, APIVersions: []string{"v1"}, Resources: []string{"pods"}}}}
+			// (timeoutSeconds tells the hooks' webhook configurations apart in the operator's registry)
+			a := hcfg.Adm{Name: b.Name, Group: b.Group, Timeout: hcfg.I(5 + hi), Rules: []hcfg.AdmRule{{Operations: []string{"CREATE"}, APIGroups: []string{""}, APIVersions: []string{"v1"}, Resources: []string{"pods"}}}}
 			if b.Mutating {
 				d.Mutating = append(d.Mutating, a)
 			} else {
@@ -292,6 +293,35 @@ func runCase(c Case) (ev.Info, error) {
 			}
 		} else {
 			info.Labels = append(info.Labels, "colliding-webhook-ids")
+			// several hooks declare this webhook id: the path belongs to the hook whose webhook configuration the
+			// operator keeps under that id (that is what the API server is told about the path)
+			sameKind := true
+			for _, cd := range cands {
+				if cd.b.Mutating != cands[0].b.Mutating {
+					sameKind = false
+				}
+			}
+			if sameKind {
+				owner := -1
+				if cands[0].b.Mutating {
+					for _, res := range env.Op.AdmissionWebhookManager.MutatingResources {
+						if w := res.Get(id); w != nil && w.TimeoutSeconds != nil {
+							owner = int(*w.TimeoutSeconds) - 5
+						}
+					}
+				} else {
+					for _, res := range env.Op.AdmissionWebhookManager.ValidatingResources {
+						if w := res.Get(id); w != nil && w.TimeoutSeconds != nil {
+							owner = int(*w.TimeoutSeconds) - 5
+						}
+					}
+				}
+				if owner >= 0 && owner < len(c.Hooks) && ran[len(ran)-1].Hook != c.Hooks[owner].Name {
+					return info, fmt.Errorf("%s: webhook id %s is declared by several hooks; the operator keeps the webhook configuration of hook %s for it, but the request was handed to hook %s", where, id, c.Hooks[owner].Name, ran[len(ran)-1].Hook)
+				}
+				info.Labels = append(info.Labels, "colliding-webhook-ids-same-kind")
+				info.NonTrivial = true
+			}
 			for _, x := range ran {
 				ok := false
 				for _, cd := range cands {
@@ -335,7 +365,7 @@ func runCase(c Case) (ev.Info, error) {
 	return info, nil
 }
 
-const rule = "1-3 scripted hooks with generated kubernetesValidating/kubernetesMutating bindings (names with dots, capitals, spaces, slashes, underscores; collisions after URL sanitising and across hooks included; a third of the bindings with the group option) loaded by the real operator assembly; 1-6 AdmissionReview requests through the real HTTP router: path {registered, unknown configuration id, unknown webhook id, extra segment, root, the binding's name as written instead of its sanitised id} x body {valid, missing request, not JSON} x hook exit {0,1,2} x response file {empty, allowed, allowed+message+warnings+patch, denied, {}, truncated, wrong type, whitespace}; oracle: decision table for allowed=true, uid echo, verdict relay (warnings, patch, patchType, denial message), and the hook log shows the hook/binding/type that registered the path. Non-trivial: a request that must not be allowed."
+const rule = "1-3 scripted hooks with generated kubernetesValidating/kubernetesMutating bindings (names with dots, capitals, spaces, slashes, underscores; collisions after URL sanitising and across hooks included; a third of the bindings with the group option) loaded by the real operator assembly; 1-6 AdmissionReview requests through the real HTTP router: path {registered, unknown configuration id, unknown webhook id, extra segment, root, the binding's name as written instead of its sanitised id} x body {valid, missing request, not JSON} x hook exit {0,1,2} x response file {empty, allowed, allowed+message+warnings+patch, denied, {}, truncated, wrong type, whitespace}; oracle: decision table for allowed=true, uid echo, verdict relay (warnings, patch, patchType, denial message), and the hook log shows the hook/binding/type that registered the path (for a webhook id declared by several hooks: the hook whose webhook configuration the operator keeps under that id, told apart by timeoutSeconds). Non-trivial: a request that must not be allowed, or a webhook id declared by several hooks."
 
 func TestAdmission(t *testing.T) {
 	ev.Main(t, ev.Spec[Case]{Property: "C14", Part: "admission", Rule: rule, Gen: gen, Run: runCase, Journal: true})
